@@ -21,10 +21,10 @@ from .gen_hc import conj_present, mpc_ok, mpd_ok
 # havoc contracts of the identification kernels
 # ----------------------------------------------------------------------------------
 
-def pole_tables(c, with_cov, tag="poles"):
+def pole_tables(c, with_cov, tag="poles", n0=None, n1=None):
     """arbitrary pole tables (Fn, Xi, Phi, Lambds, Fn_cov, Xi_cov, Phi_cov) with one NaN pattern"""
-    n0 = S.integer("n_rows", lo=1)
-    n1 = S.integer("n_cols", lo=1)
+    n0 = S.integer("n_rows", lo=1) if n0 is None else n0
+    n1 = S.integer("n_cols", lo=1) if n1 is None else n1
     L = S.integer("Nch", lo=1)
     nanp = z3.Function(c.fresh_name("nanp"), z3.IntSort(), z3.IntSort(), z3.BoolSort())
 
@@ -108,7 +108,9 @@ class SSI_poles_havoc(_Havoc):
     def spec(self, c, Obs, AA, CC, ordmax, dt, step=1, calc_unc=False, Q1=None, Q2=None, Q3=None, Q4=None):
         cu = calc_unc if isinstance(calc_unc, bool) else c.branch(calc_unc)
         c.memo["ghost:SSI_poles"] = {"ordmax": ordmax, "dt": dt, "step": step, "calc_unc": calc_unc}
-        return pole_tables(c, cu)
+        # table shape (ordmax, int(ordmax/step) + 1): established by the C01 contract of SSI_poles
+        n1 = sym.add(ordmax, 1) if (sym.is_pyint(step) and step == 1) else None
+        return pole_tables(c, cu, n0=ordmax, n1=n1)
 
 
 @register
@@ -148,7 +150,9 @@ class pLSCF_poles_havoc(_Havoc):
 
     def spec(self, c, Ad, Bn, dt, methodSy, nxseg):
         c.memo["ghost:pLSCF_poles"] = {"dt": dt, "methodSy": methodSy, "nxseg": nxseg}
-        Fn, Xi, Phi, Lam, _, _, _ = pole_tables(c, False)
+        # one column per model order 1..ordmax (len(Ad) = ordmax): established by the C05 contracts
+        om = c.memo.get("ghost:pLSCF", {}).get("ordmax")
+        Fn, Xi, Phi, Lam, _, _, _ = pole_tables(c, False, n1=om)
         return (Fn, Xi, Phi, Lam)
 
 
@@ -364,3 +368,102 @@ class pLSCF_MS_run(_RunC09):
 
     def setup(self, c):
         return {"self": plscf_algo(c, "pLSCF_MS", multi=True)}
+
+
+# ----------------------------------------------------------------------------------
+# C10 at the call sites: which columns (orders) are labelled, on which tables
+# ----------------------------------------------------------------------------------
+from .gen_sc import label as sc_label     # noqa: E402
+
+
+class _RunC10(Contract):
+    """result.Lab is the property's label function of the *filtered result tables*, the order window being
+    [ordmin, ordmax] in model orders (column c holds order c + order_offset)."""
+    props = ("C10",)
+    callable_modular = False
+    generic_replay = False
+    order_offset = 0
+    use = dict(_RunC09.use)
+    use.pop("pyoma2.functions.gen.SC_apply")
+    use["pyoma2.functions.gen.MAC"] = "abstract"
+
+    def check(self, c, pre, post, outcome):
+        if outcome[0] != "return":
+            c.oblige("post", "no-exception", False, {"raised": outcome[1]})
+            return
+        R = outcome[1].fields
+        rp = pre["self"].fields["run_params"].fields
+        Fn, Xi, Phi, Lab = R["Fn_poles"], R["Xi_poles"], R["Phi_poles"], R["Lab"]
+        sc = rp["sc"]
+        c.oblige("post", "Lab.shape", And_(sym.eq(Lab.shape[0], Fn.shape[0]), sym.eq(Lab.shape[1], Fn.shape[1])))
+        i, j = S.cell(Fn)
+        off = self.order_offset
+        want = sc_label(Fn, Xi, Phi, i, j, sym.sub(rp["ordmin"], off), sym.sub(rp["ordmax"], off),
+                        sc["err_fn"], sc["err_xi"], sc["err_phi"])
+        c.oblige("post", "label", sym.eq(Lab.get(i, j), sym.b2i(want)))
+
+    def witness(self, o):
+        from pyvc import concretise as CZ
+        from pyvc.core import Ctx, Engine
+        vals = {}
+        try:
+            ctx = Ctx(Engine(), [ch == "T" for ch in o.path])
+            with ctx:
+                env = self.setup(ctx)
+                rp = env["self"].fields["run_params"].fields
+                vals = {"ordmin": CZ.ev_scalar(o.model, rp["ordmin"]), "ordmax": CZ.ev_scalar(o.model, rp["ordmax"])}
+        except Exception:
+            pass
+        return {"driver": "c10_run", "inputs": dict(vals, cls=self.qualname.split(".")[-2], offset=self.order_offset)}
+
+
+def _ssi_step1(c, cls, multi=False):
+    a = ssi_algo(c, cls, multi)
+    a.fields["run_params"].fields["step"] = 1       # C10's scope: columns = orders
+    rp = a.fields["run_params"].fields
+    c.assume(rp["ordmin"] <= rp["ordmax"])
+    return a
+
+
+@register
+class SSIdat_run_C10(_RunC10):
+    qualname = "pyoma2.algorithms.ssi.SSIdat.run"
+    name = "labels"
+
+    def setup(self, c):
+        return {"self": _ssi_step1(c, "SSIdat")}
+
+
+@register
+class SSIdat_MS_run_C10(_RunC10):
+    qualname = "pyoma2.algorithms.ssi.SSIdat_MS.run"
+    name = "labels"
+
+    def setup(self, c):
+        return {"self": _ssi_step1(c, "SSIdat_MS", multi=True)}
+
+
+@register
+class pLSCF_run_C10(_RunC10):
+    qualname = "pyoma2.algorithms.plscf.pLSCF.run"
+    name = "labels"
+    order_offset = 1
+
+    def setup(self, c):
+        a = plscf_algo(c, "pLSCF")
+        rp = a.fields["run_params"].fields
+        c.assume(rp["ordmin"] <= rp["ordmax"])
+        return {"self": a}
+
+
+@register
+class pLSCF_MS_run_C10(_RunC10):
+    qualname = "pyoma2.algorithms.plscf.pLSCF_MS.run"
+    name = "labels"
+    order_offset = 1
+
+    def setup(self, c):
+        a = plscf_algo(c, "pLSCF_MS", multi=True)
+        rp = a.fields["run_params"].fields
+        c.assume(rp["ordmin"] <= rp["ordmax"])
+        return {"self": a}
